@@ -5,11 +5,46 @@ package limit
 import (
 	"lunar/toolkit-core/clock"
 	"math"
+	"math/bits"
 	"sync"
 	"time"
 )
 
 var epochTime = time.Unix(0, 0)
+
+// quotaRatioScale is the resolution at which an allocation ratio is read:
+// one billionth, i.e. percentages with up to seven decimal places are exact.
+const quotaRatioScale = 1_000_000_000
+
+// scaledQuota returns total*ratio rounded up to a whole number of requests.
+//
+// Allocation ratios are short decimal fractions (a percentage divided by 100)
+// that float64 can only approximate: 0.07 is stored as 0.07000000000000000666,
+// so float64(100)*0.07 = 7.000000000000001 and rounding that up would grant an
+// 8th request. The ratio is therefore snapped to the nearest multiple of
+// 1/quotaRatioScale first and the product is rounded up in integer arithmetic,
+// which is exact.
+func scaledQuota(total int64, ratio float64) int64 {
+	parts := math.Round(ratio * quotaRatioScale)
+	if total <= 0 || !(parts > 0) { // nothing to share out (also NaN)
+		return 0
+	}
+	if parts >= math.MaxInt64 {
+		return math.MaxInt64
+	}
+	high, low := bits.Mul64(uint64(total), uint64(parts))
+	if high >= quotaRatioScale { // quotient does not fit in 64 bits
+		return math.MaxInt64
+	}
+	quotient, remainder := bits.Div64(high, low, quotaRatioScale)
+	if quotient >= math.MaxInt64 {
+		return math.MaxInt64
+	}
+	if remainder > 0 {
+		quotient++
+	}
+	return int64(quotient)
+}
 
 type singleRateLimitState struct {
 	clock clock.Clock
@@ -46,9 +81,10 @@ func (state *singleRateLimitState) TryToIncrement(
 	state.windowData = windowData
 	state.ensureWindowIsUpdated()
 
-	maxAllowedInWindows := int64(math.Ceil(float64(
-		windowData.AllowedRequestCount+state.spillover) *
-		windowData.QuotaAllocationRatio))
+	maxAllowedInWindows := scaledQuota(
+		windowData.AllowedRequestCount+state.spillover,
+		windowData.QuotaAllocationRatio,
+	)
 	if state.counter >= maxAllowedInWindows {
 		return CurrentLimitState{state.counter, Block}
 	}
